@@ -1,22 +1,5 @@
 #!/bin/bash
 # Re-confirm every seeded change against the current /repo HEAD and re-run the checks recorded for it
-# (its property's own check and the sibling checks it was evaluated with).
+# (its property's own check and the sibling checks that caught it).  usage: seed_all.sh [parallel jobs, default 4]
 cd /verif
-for d in seeded/*/; do
-  n=$(basename $d); p=${n%%-*}
-  grep -q "\"superseded\": true" $d/meta.json && { echo "$n superseded"; continue; }
-  checks=$(python3 -c "
-import json; m=json.load(open('$d/meta.json')); ks=[k for k,v in m.get('checks',{}).items() if v.get('exit')==1] or ['$p']
-print(' '.join(sorted(ks, key=lambda k: (k!='$p', k))))")
-  tools/seed.py /verif/seeded/$n - $p $checks > /tmp/seedall-$n.json 2>&1
-  python3 -c "
-import json,sys
-try:
-    m=json.load(open('/tmp/seedall-$n.json'))
-    got=[k for k in '$checks'.split() if m['checks'][k]['exit']==1 and m['checks'][k]['violations']]
-    bad=[k for k in '$checks'.split() if m['checks'][k]['exit'] not in (0,1)]
-    print('$n', 'confirmed' if m['confirmed'] else 'NOT-CONFIRMED', ('caught by '+','.join(got)) if got else 'MISSED', ('HARNESS-ERROR in '+','.join(bad)) if bad else '')
-except Exception as e:
-    print('$n', 'ERROR', open('/tmp/seedall-$n.json').read()[-300:])
-"
-done
+ls seeded | xargs -P ${1:-4} -n1 tools/seed_one.sh
